@@ -177,6 +177,7 @@ class Newline(WitnessAlways, VC):
     """newline(node, extra): _new_lines' = max(_new_lines, 1 + extra); when node is not None and node.lineno != _last_line then
     _write_debug_info' = _last_line' = node.lineno; nothing else is written, nothing is raised, None is returned."""
     prop = PROP
+    timeout_quick = 60000
     target = "jinja2.compiler:CodeGenerator.newline"
 
     def __init__(self, with_node, wdi_none):
@@ -238,6 +239,7 @@ class Write(WitnessAlways, VC):
     debug_info as (line, new code_lineno) together with the newlines and cleared; with N = 0 only x is written.  The pairs stay
     strictly increasing in the code line and <= code_lineno."""
     prop = PROP
+    timeout_quick = 60000
     target = "jinja2.compiler:CodeGenerator.write"
 
     def __init__(self, wdi_none):
@@ -328,6 +330,7 @@ class Writeline(WitnessAlways, VC):
     (and not the very first write) the pair (node.lineno, code line of x) is the last entry of debug_info, and x starts exactly
     max(_new_lines, 1 + extra) lines below the previous code line."""
     prop = PROP
+    timeout_quick = 60000
     target = "jinja2.compiler:CodeGenerator.writeline"
 
     def __init__(self, wdi_none):
@@ -431,7 +434,7 @@ class CorrespondingLineno(WitnessAlways, VC):
     template line of the statement the code line belongs to.)"""
     prop = PROP
     target = "jinja2.environment:Template.get_corresponding_lineno"
-    timeout_quick = 20000
+    timeout_quick = 60000
 
     def __init__(self):
         VC.__init__(self, PROP, "C35.template.lineno.get_corresponding_lineno")
